@@ -655,8 +655,11 @@ def _get_adaptive_tau_step(x,
     sigma2 = transition_var_func(x, t)  # sqrt(sigma2*dt) = standard deviation of expected change in a[i] in dt
 
     # Some rates could be 0. Remove them to avoid dividing by 0 later on.
+    # (the variance estimate is a sum of non-negative terms; when it is tiny
+    # its floating point value can come out as a negative number, which must
+    # not be turned into a negative time step)
     mu=mu[mu!=0]
-    sigma2=sigma2[sigma2!=0]
+    sigma2=sigma2[sigma2>0]
 
     if mu.size==0 and sigma2.size==0:
         # These values could be 0 if e.g. the epidemic is over and nothing
